@@ -653,7 +653,7 @@ pub fn case_strategy(prof: &Profile) -> proptest::strategy::BoxedStrategy<Vec<Op
     if prof.name == "C13" {
         let third = Profile { max_ops: (prof.max_ops / 3).max(4), w_probe: 0, ..prof.clone() };
         let h = || history_strategy(&third);
-        (0u16..40, h(), h(), h())
+        (prop_oneof![8 => 0u32..40, 1 => 1000u32..5000, 1 => 60_000u32..70_000], h(), h(), h())
             .prop_map(|(cap, p, a, b)| {
                 let mut v = vec![Op::Reserve { k: cap }];
                 v.extend(p);
